@@ -18,6 +18,8 @@ for s in seeds:
         res[s] = {'property': prop, 'error': 'patch does not apply: ' + r.stderr[:300]}
         print(s, 'PATCH FAILED')
         continue
+    ev = 'evidence/%s.json' % prop
+    saved = open(ev).read() if os.path.exists(ev) else None
     try:
         r = subprocess.run(['bin/cverif', 'check', prop], capture_output=True, text=True, timeout=1800)
         lines = r.stdout.splitlines()
@@ -29,4 +31,6 @@ for s in seeds:
         print(s, 'caught' if res[s]['caught'] else 'MISSED', '| violations', len(viol), '| replay-confirmed', res[s]['confirmed_by_replay'])
     finally:
         subprocess.run(['git', '-C', '/repo', 'checkout', '--', '.'])
+        if saved is not None:
+            open(ev, 'w').write(saved)  # the evidence file describes the unchanged tree, not the seeded one
     json.dump(res, open('seeded/RESULTS.json', 'w'), indent=1)
